@@ -79,6 +79,76 @@ def build_array(t):
     return a
 
 
+LAYOUTS = ('packed', 'aligned', 'offsets', 'wide_view', 'reordered_view', 'strided_view', 'reversed_view', 'bigendian', 'recarray')
+_JUNK = [('junk_a', 'u1'), ('junk_b', 'c16'), ('junk_c', 'u2'), ('junk_d', 'b1'), ('junk_e', 'f2', (3,))]
+
+
+def relayout(a, layout, salt=0):
+    """The same rows and columns (names, order, types, values) held in another memory layout (round 6, classes B / G):
+    an aligned dtype, explicit offsets with gaps, a multi-field selection of a WIDER record array (a view that keeps the
+    offsets of the wide record; the fields left out may be of any type), a selection that reorders the fields, every
+    second row / the rows backwards of a longer array (non-contiguous), big-endian fields, a recarray view."""
+    if layout in (None, 'packed'):
+        return a
+    names = list(a.dtype.names)
+    spec = [(n, a.dtype[n]) for n in names]
+
+    def filled(b):
+        for n in names:
+            b[n] = a[n]
+        return b
+    if layout == 'recarray':
+        return a.view(np.recarray)
+    if layout == 'aligned':
+        return filled(np.zeros(a.shape, dtype=np.dtype(spec, align=True)))
+    if layout == 'bigendian':
+        return filled(np.zeros(a.shape, dtype=np.dtype([(n, d.newbyteorder('>')) for n, d in spec])))
+    if layout == 'offsets':
+        offs = []
+        off = 1 + salt % 3
+        for k, (n, d) in enumerate(spec):
+            offs.append(off)
+            off += d.itemsize + (salt + 3 * k) % 6
+        return filled(np.zeros(a.shape, dtype=np.dtype({'names': names, 'formats': [d for _, d in spec], 'offsets': offs,
+                                                        'itemsize': off + salt % 4})))
+    # views of a wider record array
+    wide = []
+    for k, f in enumerate(spec):
+        if (salt + k) % 2 == 0:
+            j = _JUNK[(salt + k) % len(_JUNK)]
+            wide.append((j[0] + str(k),) + tuple(j[1:]))
+        wide.append(f)
+    wide.append(('junk_tail', 'i8'))
+    if layout == 'reordered_view':
+        wide = list(reversed(wide))
+    n = a.shape[0]
+    if layout == 'strided_view':
+        big = np.zeros((2 * n + 1,), dtype=np.dtype(wide))
+        big.view('u1')[...] = 0xA5                       # junk everywhere, then the rows at the even places
+        sel = big[names][::2][:n]
+        for nm in names:
+            big[nm][0:2 * n:2] = a[nm]
+        return sel
+    if layout == 'reversed_view':
+        big = np.zeros((n,), dtype=np.dtype(wide))
+        for nm in names:
+            big[nm] = a[nm][::-1]
+        return big[names][::-1]
+    big = np.zeros((n,), dtype=np.dtype(wide))
+    for nm in names:
+        big[nm] = a[nm]
+    return big[names]
+
+
+def hdr_value(v):
+    """a header value as the caller's Python object: str, or {'py': type tag, 'v': value} (round 6, class E)"""
+    if isinstance(v, dict):
+        t, x = v['py'], v['v']
+        return {'int': int, 'float': float, 'bool': bool, 'npint': np.int64, 'npint32': np.int32, 'npfloat': np.float64,
+                'npfloat32': np.float32, 'npbool': np.bool_, 'npstr': np.str_}[t](x)
+    return v
+
+
 def dump_cell(x):
     if isinstance(x, (np.ndarray, list, tuple)):
         return [dump_cell(y) for y in x]
@@ -169,7 +239,9 @@ def slot_path(workdir, job):
 
 def fingerprint(arrays, hdr, enums):
     """the caller's data, bit for bit: record arrays (dtype + bytes), header and enum dictionaries (order included)"""
-    return ([(str(a.dtype.descr), a.shape, a.tobytes().hex()) for a in arrays],
+    return ([(repr(a.dtype), tuple((n, a.dtype.fields[n][1]) for n in a.dtype.names), type(a).__name__, a.shape, a.strides,
+              [np.ascontiguousarray(a[n]).tobytes().hex() for n in a.dtype.names])      # per field: padding bytes are not content
+             for a in arrays],
             None if hdr is None else [(k, repr(v)) for k, v in hdr.items()],
             None if enums is None else [(k, repr(v)) for k, v in enums.items()])
 
@@ -197,37 +269,97 @@ def job_write(job, workdir):
     if os.path.exists(path):
         os.remove(path)
     res = {'id': job['id']}
-    arrays = [build_array(t) for t in doc['tables']]
+    layouts = job.get('layouts') or []
+    arrays = [relayout(build_array(t), layouts[i] if i < len(layouts) else None, salt=i + len(t['cols']) + len(t['rows']))
+              for i, t in enumerate(doc['tables'])]
     names = [t['name'] for t in doc['tables']]
     hdr = None
     if doc.get('hdr') is not None:
-        hdr = OrderedDict((k, v) for k, v in doc['hdr'])
+        typed = job.get('hdr_py') or {}
+        hdr = OrderedDict((k, hdr_value(typed.get(k, v))) for k, v in doc['hdr'])
     enums = None
     if doc.get('enums') is not None:
         enums = OrderedDict((e[0], (e[1], list(e[2]))) for e in doc['enums'])
     entry = job['entry']
+    overwrite = job.get('overwrite')          # None: the keyword is not passed; False / True: passed explicitly
+    held = {}
 
-    def do_write():
+    def do_write(target=None):
+        target = target or path
         if entry == 'ndarray':
-            data = arrays[0] if (len(arrays) == 1 and job.get('single')) else tuple(arrays)
-            sn = names[0] if (len(arrays) == 1 and job.get('single')) else tuple(names)
+            data = arrays[0] if (len(arrays) == 1 and job.get('single')) else (list(arrays) if job.get('as_list') else tuple(arrays))
+            sn = names[0] if (len(arrays) == 1 and job.get('single')) else (list(names) if job.get('as_list') else tuple(names))
             if job.get('default_names'):
                 sn = None           # structnames=None: the writer names the tables itself
-            par = write_ndarray_to_yanny(path, data, structnames=sn, enums=enums, hdr=hdr, comments=list(doc['comments']))
+            par = write_ndarray_to_yanny(target, data, structnames=sn, enums=enums, hdr=hdr, comments=list(doc['comments']))
+            held['par'] = par
             return dump_yanny(par)
         tb = Table(arrays[0])
         if hdr:
             tb.meta = hdr
+        kw = {} if overwrite is None else {'overwrite': overwrite}
         if entry == 'table_func':
-            write_table_yanny(tb, path, tablename=names[0])
+            write_table_yanny(tb, target, tablename=names[0], **kw)
         else:
-            tb.write(path, format='yanny', tablename=names[0])
+            tb.write(target, format='yanny', tablename=names[0], **kw)
         return None
+    if job.get('over') is not None:
+        # round 6: the target exists already and holds OTHER tables / pairs; overwrite=True must replace it entirely
+        od = job['over']
+        seed = guarded(lambda: (write_ndarray_to_yanny(
+            path, tuple(build_array(t) for t in od['tables']), structnames=tuple(t['name'] for t in od['tables']),
+            hdr=(OrderedDict((k, v) for k, v in od['hdr']) if od.get('hdr') else None),
+            enums=(OrderedDict((e[0], (e[1], list(e[2]))) for e in od['enums']) if od.get('enums') else None),
+            comments=['older file']), None)[1])
+        if 'exc' in seed:
+            # the older document is a valid document too: a writer that raises on it is judged like any failed write
+            # (the replay holds the whole job, 'over' included); never let the exception end the runner
+            res['write'] = seed
+            res['over_seed_failed'] = True
+            res['caller_data_changed'] = None
+            res['bystander_changed'] = None
+            res['file_hex'] = None
+            if os.path.exists(path):
+                os.remove(path)
+            return res
+    if job.get('reuse'):
+        # round 6 (class A): the SAME array objects and header dictionary were written before with other content and then
+        # edited in place; the second write must show the content as it is now
+        final = [a.copy() for a in arrays]
+        fhdr = None if hdr is None else list(hdr.items())
+        for a in arrays:
+            if a.shape[0] > 1:
+                a[...] = a[::-1].copy()
+        if hdr is not None:
+            for k in hdr:
+                hdr[k] = 'earlier value'
+        first = path + '.first'
+        if os.path.exists(first):
+            os.remove(first)
+        res['first_write'] = guarded(lambda: (do_write(first), None)[1])
+        if os.path.exists(first):
+            os.remove(first)
+        for a, f in zip(arrays, final):
+            a[...] = f
+        if hdr is not None:
+            for k, v in fhdr:
+                hdr[k] = v
     before = fingerprint(arrays, hdr, enums)
     res['write'] = guarded(do_write)
     after = fingerprint(arrays, hdr, enums)
     res['caller_data_changed'] = None if before == after else 'arrays / hdr / enums handed to the writer differ after the call'
     res['bystander_changed'] = bystander_check()
+    if held.get('par') is not None and 'ok' in res['write']:
+        # round 6 (class A): the returned object must not alias the caller's arrays -- edit them, look at the object again
+        saved = [a.copy() for a in arrays]
+        for a in arrays:
+            for n in a.dtype.names:
+                a[n] = np.zeros_like(a[n])
+        again = guarded(lambda: dump_yanny(held['par']))
+        for a, f in zip(arrays, saved):
+            a[...] = f
+        if json.dumps(again, sort_keys=True) != json.dumps(res['write'], sort_keys=True):
+            res['alias_changed'] = 'the returned yanny object changed when the caller edited its own arrays after the call'
     if os.path.exists(path):
         with open(path, 'rb') as f:
             res['file_hex'] = f.read().hex()
@@ -341,6 +473,51 @@ def job_glue(job, workdir):
         p = path('unsupw_' + code)
         o['tablewrite_unsupported_' + code] = {'exc': exc_of(lambda: t.write(p, format='yanny', tablename='U')), 'file': os.path.exists(p)}
     o['exception_class'] = PydlutilsException.__name__
+    # 6. round 6 (class C): importing the package the way a user does and one write / read / maskbits load, in a FRESH
+    #    interpreter, leave the process-global settings of numpy / warnings / astropy.io.fits / os.environ as they were
+    import subprocess
+    script = r'''
+import json, os, sys, warnings
+import numpy as np
+import astropy.io.fits as fits
+for _m in ('astropy.table', 'astropy.io.registry', 'astropy.units', 'astropy.utils.data', 'astropy.tests.runner', 'astropy.wcs', 'astropy.time',
+           'scipy', 'scipy.special', 'scipy.linalg', 'scipy.optimize', 'scipy.signal', 'scipy.interpolate', 'scipy.sparse'):
+    try:
+        __import__(_m)          # third-party imports (astropy.table installs a warnings filter of its own) come first
+    except Exception:
+        pass
+def snap():
+    return {'np.geterr': dict(np.geterr()), 'np.printoptions': {k: repr(v) for k, v in np.get_printoptions().items()},
+            'warnings.filters': [repr(f) for f in warnings.filters],
+            'fits.conf': {k: repr(getattr(fits.conf, k)) for k in ('enable_uint', 'use_memmap', 'lazy_load_hdus', 'strip_header_whitespace',
+                                                                   'extension_name_case_sensitive', 'enable_record_valued_keyword_cards')},
+            'os.environ': dict(os.environ), 'sys.path': list(sys.path), 'float_repr': [repr(0.1), str(np.float32(0.1)), str(np.float64(1e22))]}
+s0 = snap()
+import pydl
+from pydl.pydlutils.yanny import yanny, write_ndarray_to_yanny
+from pydl.pydlutils.sdss import sdss_flagval, set_maskbits
+import pydl.pydlutils.sdss as S
+s1 = snap()
+a = np.zeros((2,), dtype=[('x', 'f8'), ('s', 'S3')])
+p = sys.argv[1]
+write_ndarray_to_yanny(p, a, structnames='T', hdr={'k': 1.5})
+yanny(p)['T']
+with open(p + '.mask', 'w') as f:
+    f.write('typedef struct {\n char flag[20];\n short bit;\n char label[30];\n char description[100];\n} maskbits;\nmaskbits G 0 A "a"\n')
+S.maskbits = set_maskbits(maskbits_file=p + '.mask')
+sdss_flagval('G', 'A')
+s2 = snap()
+def diff(a, b):
+    return sorted(k for k in a if json.dumps(a[k], sort_keys=True) != json.dumps(b[k], sort_keys=True))
+json.dump({'import': diff(s0, s1), 'use': diff(s1, s2)}, sys.stdout)
+'''
+    p = path('globals')
+    env = dict(os.environ)
+    try:
+        cp = subprocess.run([sys.executable, '-W', 'default', '-c', script, p], capture_output=True, text=True, env=env, timeout=300)
+        o['process_globals'] = json.loads(cp.stdout) if cp.returncode == 0 else {'exc': 'exit %d' % cp.returncode, 'msg': cp.stderr[-300:]}
+    except Exception as e:  # noqa: BLE001
+        o['process_globals'] = {'exc': type(e).__name__, 'msg': str(e)[:200]}
     return res
 
 
